@@ -20,5 +20,9 @@ CHECKS = {
         text="Lean model (transcription of CGraph.cpp incl. tombstones, index vectors, iterative 3-colour DFS with duplicate stack entries, worklists, Kosaraju second pass) with the mathematical digraph (paths as an inductive relation) as specification; theorems over all update histories (refinement of mutators, counts, reachability closures, cycle detection, topological order, loop groups = SCCs with a cycle) — those not yet proved are kept as `_statement` definitions and listed as partial in the evidence. Tie: exhaustive short histories + random long ones compared query-by-query with the model and with an independent closure-based digraph oracle.",
         note="std::unordered_set iteration order is passed from the implementation to the model; the uid->slot hash map is modelled as a derived function; int32 index overflow not modelled. The loop-group defect of the pinned code (edges 1>3,1>2,2>1) was found by this check and repaired by a fix: commit.",
     ),
+    "C09": dict(
+        text="Lean state machine transcribing IdentityManager / CstNameGenerator / CstList (InsertPositionFor, CanMoveBefore, splice) / RSCore insertion paths, Erase, SetAliasFor, ResetAliases / RSForm tracking guards; the invariant (unique uids and aliases, alias letter = kind, list = permutation of the store and kind-sorted, registries = key sets, tracking within keys) is stated over all histories with arbitrary colliding / ill-formed arguments; refused-is-identity and tracked-protected are proved, the history invariant is proved or listed as partial in the evidence. Tie: random histories compared op by op and dump by dump with the model; the invariant, 'refused changes nothing' and 'erased is gone from every view' are also evaluated directly on the implementation.",
+        note="Fresh uids come from std::random_device: the harness passes the uid actually drawn. Definitions / texts / analysis are opaque in this model. MergeWith is covered by C12.",
+    ),
 }
-NOT_APPLICABLE = {p: PENDING for p in ["C01","C02","C03","C04","C05","C06","C07","C08","C09","C10","C11","C12","C13","C15","C16","C17","C18","C19"]}
+NOT_APPLICABLE = {p: PENDING for p in ["C01","C02","C03","C04","C05","C06","C07","C08","C10","C11","C12","C13","C15","C16","C17","C18","C19"]}
